@@ -52,7 +52,8 @@ def check(case):
     ar = o.arith
     ballots = drive.ballots_of(o)
     acts = common.nonlog(o)
-    fused = rule == 'scotland'
+    fused = rule in ('scotland', 'cfer', 'cfer-batch')      # one truncation of old*surplus/tally
+    fraction_first = rule == 'mpls'                          # 167.20: trunc(trunc(surplus/tally) * old)
     transferred = set()       # candidates from whom a transfer has been logged
     prev = None               # (action, snapshot)
     nrew = [0] * len(ballots)
@@ -123,6 +124,8 @@ def check(case):
                         want = exact
                     elif fused:
                         want = ar.floor(exact)
+                    elif fraction_first:
+                        want = ar.floor(ar.floor(surplus / tally) * w0)
                     else:
                         want = ar.floor(ar.floor(w0 * surplus) / tally)
                     if w1 != want:
